@@ -96,6 +96,8 @@ type Core struct {
 	Ord   int    // Order()
 	Log   *mon.Lifecycle
 	Fails map[string]bool // "init" | "aps" | "run" | "close" -> return an error
+	// FailOnce: like Fails, but only the first invocation fails (transient fault)
+	FailOnce map[string]bool
 	Hook  func(kind string, who Node)
 	// CloseFn, when set, runs between close-begin and close-end (gates, delays).
 	CloseFn func(who Node)
@@ -109,6 +111,10 @@ func (k *Core) ev(kind string, who Node) error {
 	}
 	if k.Fails[kind] {
 		return errors.New("injected fault: " + kind + " of " + name)
+	}
+	if k.FailOnce[kind] {
+		delete(k.FailOnce, kind)
+		return errors.New("injected transient fault: " + kind + " of " + name)
 	}
 	return nil
 }
